@@ -522,10 +522,7 @@ class EntityIdTlv(AbstractTlvBase):
 
     @classmethod
     def unpack(cls, data: bytes) -> EntityIdTlv:
-        entity_id_tlv = cls.__empty()
-        entity_id_tlv.tlv = CfdpTlv.unpack(data=data)
-        entity_id_tlv.check_type(tlv_type=TlvType.ENTITY_ID)
-        return entity_id_tlv
+        return cls.from_tlv(CfdpTlv.unpack(data=data))
 
     @classmethod
     def from_tlv(cls, cfdp_tlv: CfdpTlv) -> EntityIdTlv:
